@@ -98,6 +98,7 @@ def run(ck: Check) -> None:
         muts = mdgen.mutations(rng, env, per_path=1, max_total=30)
         for m, label in rng.sample(muts, min(8, len(muts))):
             cases.append(Case("vsignable", [m, auth, 1, gpg], tag="vsignable-mutated", group=i))
+        cases.append(Case("vsignable", [env, auth, 1, rng.choice([1, 2, "yes", [0], 1.5]) if gpg else rng.choice([0, "", None, [], 0.0])], tag="vsignable-truthy-flag", group=i))
         if auth:
             a2 = list(auth)
             a2[rng.randrange(len(a2))] = rng.choice([None, 5, "zz", a2[0].upper(), [a2[0]], a2[0][:-1]])
@@ -112,6 +113,8 @@ def run(ck: Check) -> None:
                 args = [role, u, t, gpg]
                 args[which] = m
                 cases.append(Case("vdeleg", args, tag="vdeleg-mutated-arg%d" % which, group=1000 + i))
+        # mode flags that are == to True / False without being the bool objects pass the flag check; the outcome families still hold
+        cases.append(Case("vdeleg", [role, u, t, (1 if gpg else 0) if i % 4 < 2 else (1.0 if gpg else 0.0)], tag="vdeleg-flag-equal-to-bool", group=1000 + i))
         for v in rng.sample(K, 3):
             cases.append(Case("vdeleg", [role, v, t, gpg], tag="vdeleg-arg1", group=1000 + i))
             cases.append(Case("vdeleg", [role, u, v, gpg], tag="vdeleg-arg2", group=1000 + i))
